@@ -11,20 +11,20 @@ use ironcalc_base::Model;
 use serde_json::{json, Value};
 use std::collections::BTreeMap;
 
-pub const WATCHDOG_S: f64 = 6.0;
+pub const WATCHDOG_S: f64 = 30.0;
 
-const QUICK_FILES: [&str; 8] = [
+const QUICK_FILES: [&str; 6] = [
     "openpyxl_example.xlsx",
     "libreoffice_888_example.xlsx",
     "missing_r_on_row.xlsx",
-    "optional_xf_id.xlsx",
     "shared_formula_volatile.xlsx",
-    "freeze.xlsx",
     "dynamic_arrays.xlsx",
     "docs/CHOOSE.xlsx",
 ];
 
-const THOROUGH_FILES: [&str; 22] = [
+const THOROUGH_FILES: [&str; 24] = [
+    "optional_xf_id.xlsx",
+    "freeze.xlsx",
     "calc_test_no_export/tables.xlsx",
     "link_test.xlsx",
     "conditional_formatting/cf_tests.xlsx",
